@@ -612,6 +612,14 @@ impl WebSocketClient {
         // connection, so without this the caller loses the socket and never
         // learns why.
         self.inner.limits.check_outbound(bytes.len())?;
+        // A connection already declared dead refuses the write without queueing
+        // on the writer mutex: `close_writer` may be holding it, stalled in the
+        // close handshake for as long as the peer keeps the socket open without
+        // reading. The flag is tested again below, under the mutex, for a failure
+        // that lands while this call waits its turn.
+        if self.inner.failed_flag.load(Ordering::Acquire) {
+            return Err(websocket_closed_error());
+        }
         let mut writer = self.inner.writer.lock().await;
         // Register for the failure signal before testing the flag, so a
         // failure landing in between is not missed.
